@@ -19,6 +19,16 @@ for p in sorted(glob.glob(os.path.join(V, "seeded", "*", "meta.json"))):
     m = json.load(open(p))
     out.append("| %s | %s | %s | %s |" % (m["id"], m["property"], m["needs_to_manifest"].replace("|", "\\|"),
                                        m["caught_by"].replace("|", "\\|")))
+out.append("")
+out.append("### Sub-checks and measured coverage (from evidence/*.json of the last run)\n")
+out.append("| property | level | tier | sub-check (mode) | evaluations | distinct non-trivial | shard wall s |")
+out.append("|---|---|---|---|---|---|---|")
+for p in sorted(glob.glob(os.path.join(V, "evidence", "C*.json"))):
+    e = json.load(open(p))
+    for name, sc in sorted(e["coverage"].get("subchecks", {}).items()):
+        out.append("| %s | %s | %s | %s (%s%s) | %d | %d | %s |" % (
+            e["property_id"], e["level"], e["tier"], name, sc["mode"], ", exhaustive" if sc.get("exhaustive") else "",
+            sc["evaluations"], sc["distinct_nontrivial"], sc.get("max_shard_wall_s", "")))
 text = "\n".join(out) + "\n"
 p = os.path.join(V, "DESIGN.md")
 s = open(p).read()
